@@ -1,5 +1,5 @@
 (* GENERATED on every run by translate/pystim2coq.py (hook of harness/C01.py, harness/C09.py) from
-   /tmp/mt-22131-22915/psiaudio/stim.py - do not edit.  Index bookkeeping of: envelope, GateFactory.__init__, GateFactory.next, GateFactory.n_samples_remaining, GateFactory.n_samples, GateFactory.is_complete, EnvelopeFactory.next, FixedWaveform.next, FixedWaveform.n_samples_remaining, FixedWaveform.n_samples, FixedWaveform.is_complete, SquareWaveFactory.next, _sam_envelope.
+   /repo/psiaudio/stim.py - do not edit.  Index bookkeeping of: envelope, GateFactory.__init__, GateFactory.next, GateFactory.n_samples_remaining, GateFactory.n_samples, GateFactory.is_complete, EnvelopeFactory.next, FixedWaveform.next, FixedWaveform.n_samples_remaining, FixedWaveform.n_samples, FixedWaveform.is_complete, SquareWaveFactory.next, _sam_envelope.
    nid = symbolic id of the node; i_env_lb / i_duration / i_rise_time / D / start_samples / duration_samples = the
    pinned float conversions; token = what the input factory hands out. *)
 From PV Require Import Common.PySlice Stim.Model.
